@@ -171,6 +171,12 @@ theorem avoid_iff (m : Marks) :
   unfold prefOf
   cases m.trustedPrefer <;> cases m.userPrefer <;> cases m.trustedAvoid <;> cases m.userAvoid <;> simp
 
+/-- the four marks the property names (Fs.h, via the translator); the driver reads them off the scenario's xattrs -/
+theorem preference_xattr_names :
+    OomdModel.Generated.xattrPreferTrusted = "trusted.oomd_prefer" ∧ OomdModel.Generated.xattrPreferUser = "user.oomd_prefer" ∧
+    OomdModel.Generated.xattrAvoidTrusted = "trusted.oomd_avoid" ∧ OomdModel.Generated.xattrAvoidUser = "user.oomd_avoid" := by
+  decide
+
 /-! ## the hypotheses are satisfiable, and the statements are not vacuous -/
 
 /-- `Util::filter` followed by a sort on (preference, key) is an admissible ranking -/
